@@ -116,21 +116,7 @@ def run(chk, prog):
                    ci.loc(bad[0]) if bad else None)
 
     # ---- (b) error stops the story
-    fe_blocks = [bb for bb, t in story_add.calls() if callee_short(t) == 'StoryState::force_end']
-    if chk.anchor(R_B, 'call of StoryState::force_end in Story::add_error', fe_blocks):
-        def atom_of(desc):
-            if desc == ('arg', 3):
-                return 'is_warning'
-            return None
-        gf = GuardFlow(prog, story_add, atom_of, tracer=tr)
-        gf.run()
-        ga = cfg(story_add)
-        tested = any(gf.atom_for_cond(gf.cond_at(b)) == 'is_warning' for b in range(len(story_add.blocks)))
-        cond = tested and not _reach_avoiding(gf, ga, fe_blocks, 'is_warning', False)
-        chk.decide(R_B, chk.key(R_B, 'Story::add_error', 'force_end'), cond,
-                   'every path with is_warning = false passes StoryState::force_end',
-                   'a path of Story::add_error with is_warning = false reaches return without StoryState::force_end: '
-                   'an error no longer stops the story', story_add.loc(fe_blocks[0]))
+    check_add_error_force_end(chk, prog, tr, R_B)
     cc = prog.fn('StoryState::can_continue')
     if chk.anchor(R_B, 'StoryState::can_continue', cc):
         atoms = tr.prov_local(cc, 0)
@@ -193,6 +179,27 @@ def run(chk, prog):
                                '%s pushes to %s outside StoryState::add_error (bypasses the single delivery channel)'
                                % (root, lst), fn.loc(bb))
     chk.floor(R_D, 'pushes to the message lists', nprod, 2)
+
+
+def check_add_error_force_end(chk, prog, tr, R_B):
+    story_add = prog.fn('Story::add_error')
+    if not chk.anchor(R_B, 'Story::add_error', story_add):
+        return
+    fe_blocks = [bb for bb, t in story_add.calls() if callee_short(t) == 'StoryState::force_end']
+    if chk.anchor(R_B, 'call of StoryState::force_end in Story::add_error', fe_blocks):
+        def atom_of(desc):
+            if desc == ('arg', 3):
+                return 'is_warning'
+            return None
+        gf = GuardFlow(prog, story_add, atom_of, tracer=tr)
+        gf.run()
+        ga = cfg(story_add)
+        tested = any(gf.atom_for_cond(gf.cond_at(b)) == 'is_warning' for b in range(len(story_add.blocks)))
+        cond = tested and not _reach_avoiding(gf, ga, fe_blocks, 'is_warning', False)
+        chk.decide(R_B, chk.key(R_B, 'Story::add_error', 'force_end'), cond,
+                   'every path with is_warning = false passes StoryState::force_end',
+                   'a path of Story::add_error with is_warning = false reaches return without StoryState::force_end: '
+                   'an error no longer stops the story', story_add.loc(fe_blocks[0]))
 
 
 def _reach_avoiding(gf, ga, avoid, atom, value):
